@@ -25,11 +25,20 @@ run_one() {
     if [ $rc -eq 0 ]; then echo "quiet    $base"; else echo "FALSE-ALARM $base (exit $rc): $(echo "$out" | grep '^VIOLATION' | head -2)"; return 1; fi
   fi
 }
+jobs=${SELFTEST_JOBS:-3}
+tmpout=$(mktemp -d "${TMPDIR:-/tmp}/govc-selftest-XXXXXX")
+n=0
 for kind in mutants mustpass; do
   for p in "$here"/selftest/$kind/*.patch; do
     [ -e "$p" ] || continue
     case "$(basename $p)" in "$filter"*) ;; *) [ -n "$filter" ] && continue;; esac
-    run_one $kind "$p" || fail=1
+    n=$((n+1))
+    ( run_one $kind "$p" > "$tmpout/$n.out" 2>&1; echo $? > "$tmpout/$n.rc" ) &
+    while [ "$(jobs -r | wc -l)" -ge "$jobs" ]; do sleep 1; done
   done
 done
+wait
+for f in "$tmpout"/*.out; do [ -e "$f" ] && cat "$f"; done
+for f in "$tmpout"/*.rc; do [ -e "$f" ] && [ "$(cat $f)" != 0 ] && fail=1; done
+rm -rf "$tmpout"
 exit $fail
